@@ -129,23 +129,49 @@ class Node(object):
         ''' rx_routes: [(regex, action)], tx_routes: [(regex, next_node, mtu)] '''
         self.node_id = node_id
         self.ctx = simloop.Context(name or node_id)
-        cfg = bp.config.Config(node_id=node_id, accept_after_verify=accept_after_verify)
-        for pat, action in rx_routes:
-            cfg.rx_route_table.append(bp.config.RxRouteItem(eid_pattern=re.compile(pat), action=action))
-        for pat, nxt, mtu in tx_routes:
-            cfg.tx_route_table.append(bp.config.TxRouteItem(eid_pattern=re.compile(pat), next_nodeid=nxt,
-                                                            cl_type='fake', mtu=mtu, raw_config={'next': nxt}))
+        # The configuration is loaded the way a deployment loads it: Config.from_file() on a YAML document (written in
+        # JSON form, which is valid YAML) with the options under "bp".
+        doc = dict(node_id=node_id, accept_after_verify=bool(accept_after_verify),
+                   rx_route_table=[dict(eid_pattern=pat, action=action) for pat, action in rx_routes],
+                   tx_route_table=[self._tx_entry(pat, nxt, mtu) for pat, nxt, mtu in tx_routes])
         if apps:
-            cfg.apps = dict(apps)
+            doc['apps'] = dict(apps)
         for key, val in (config_extra or {}).items():
-            # (what a deployment sets in its configuration file, e.g. sign_key_file / sign_cert_file / verify_ca_file)
-            setattr(cfg, key, val)
+            # (e.g. sign_key_file / sign_cert_file / verify_ca_file)
+            doc[key] = val
+        self._doc = doc
+        cfg = bp.config.Config()
+        self._load(cfg)
+        if len(cfg.rx_route_table) != len(doc['rx_route_table']) or len(cfg.tx_route_table) != len(doc['tx_route_table']):
+            raise boot.BootError('a route entry of the harness was rejected by Config.from_file')
         self.config = cfg
         with simloop.entered(self.ctx):
             self.agent = bp.agent.Agent(cfg)
         self.cl = FakeCL()
         self.agent._cl_agent['fake'] = self.cl
         self.recv_errors = []
+
+    @staticmethod
+    def _tx_entry(pat, nxt, mtu):
+        entry = dict(eid_pattern=pat, next_nodeid=nxt, cl_type='fake', next=nxt)
+        if mtu is not None:
+            entry['mtu'] = int(mtu)
+        return entry
+
+    def _load(self, cfg):
+        import io
+        import json
+        cfg.from_file(io.StringIO(json.dumps({'bp': self._doc})))
+
+    def set_mtu(self, index, mtu):
+        ''' The MTU of transmit route ``index`` is changed in the configuration document and the document loaded again
+        (Config.from_file rebuilds the route tables of the same Config object the agent holds). '''
+        entry = self._doc['tx_route_table'][index]
+        if mtu is None:
+            entry.pop('mtu', None)
+        else:
+            entry['mtu'] = int(mtu)
+        self._load(self.config)
 
     @property
     def bpsec(self):
